@@ -21,6 +21,9 @@ import (
 
 //SetRoute 设置该路由信息
 func AddRoute(addr tcpip.Address) {
+	if verifSkipInit {
+		return
+	}
 	//未配置， 则自动随机获取网卡ipv4地址
 	firstIp, firstNic := ipv4.InternalInterfaces()
 	if config.HardwardIp == "" {
